@@ -3,10 +3,15 @@
 // verif-c30: correspondence + direct oracle for access control (property C30).
 //
 // Every case configures a real vkuth.JWTHelper (keys through the production ParseVkuthKeys path, clock injected
-// with SetNow), mints one token with a fresh Ed25519 key from a *spec* (valid, or differing from a valid token in
-// one or two aspects, or malformed), runs the REAL api.parseAccessToken on it and then the REAL
-// CanViewMetricName / canChangeMetricByName / CanEditMetric of the resulting accessInfo on generated names and
-// MetricMetaValue pairs.
+// with SetNow) and parses a SEQUENCE of 1-5 tokens with it, in this one process. Each token is minted with a fresh
+// Ed25519 key from a *spec* (valid, or differing from a valid token in one or two aspects, or malformed; the claims
+// JSON in several shapes: bits / user / is_service / vkuth_data / registered claims present, absent or null). The
+// first token of a sequence is usually privileged, later ones often carry no bits key, null, [], fewer bits or the
+// previous bits under another application's prefix. Every token goes through the REAL api.parseAccessToken, and the
+// resulting accessInfo through the REAL CanViewMetricName / canChangeMetricByName / CanEditMetric on generated names
+// and MetricMetaValue pairs. The model decides every token ALONE (it has no memory), so any leak from an earlier
+// token into a later one is a disagreement; the oracle grant-depends-on-previous-token re-parses every accepted
+// token on a fresh helper after a neutral token and demands the same grants.
 //
 //	> cfg <app> <configured key ids> <protected prefixes> <local 0|1> <insecure 0|1>
 //	> tok <now ms> empty | malformed | t <alg> <kind> <kid> <sigOk key ids> <iss> <user> <exp> <iat> <nbf> <svc> <bits>
@@ -136,6 +141,11 @@ type spec struct {
 	bits           []string
 	malformed      int // 0 = well formed
 	aspects        []string
+	// JSON shape of the claims (all of these decode to the same model token: absent = null = zero value)
+	bitsShape  int  // 0 "bits":[…], 1 no bits key, 2 "bits":null            (bits must be empty for 1 and 2)
+	dataShape  int  // 0 "vkuth_data":{…}, 1 no vkuth_data key, 2 "vkuth_data":null   (user/bits/service empty for 1 and 2)
+	nullAbsent bool // absent iss / exp / iat / nbf / user are written as JSON null instead of being omitted
+	svcShape   int  // is_service=false written as: 0 omitted, 1 false, 2 null
 }
 
 func (s *spec) headerJSON() string {
@@ -157,31 +167,61 @@ func (s *spec) headerJSON() string {
 
 func (s *spec) claimsJSON(user *string) string {
 	var f []string
+	null := func(dst *[]string, key string) {
+		if s.nullAbsent {
+			*dst = append(*dst, jsonStr(key)+":null")
+		}
+	}
 	if s.iss != nil {
 		f = append(f, `"iss":`+jsonStr(*s.iss))
+	} else {
+		null(&f, "iss")
 	}
 	if s.exp != nil {
 		f = append(f, `"exp":`+jsonMs(*s.exp))
+	} else {
+		null(&f, "exp")
 	}
 	if s.iat != nil {
 		f = append(f, `"iat":`+jsonMs(*s.iat))
+	} else {
+		null(&f, "iat")
 	}
 	if s.nbf != nil {
 		f = append(f, `"nbf":`+jsonMs(*s.nbf))
+	} else {
+		null(&f, "nbf")
 	}
 	var d []string
-	bs := make([]string, len(s.bits))
-	for i, b := range s.bits {
-		bs[i] = jsonStr(b)
+	switch s.bitsShape {
+	case 0:
+		bs := make([]string, len(s.bits))
+		for i, b := range s.bits {
+			bs[i] = jsonStr(b)
+		}
+		d = append(d, `"bits":[`+strings.Join(bs, ",")+`]`)
+	case 2:
+		d = append(d, `"bits":null`)
 	}
-	d = append(d, `"bits":[`+strings.Join(bs, ",")+`]`)
 	if user != nil {
 		d = append(d, `"user":`+jsonStr(*user))
+	} else {
+		null(&d, "user")
 	}
-	if s.service {
+	switch {
+	case s.service:
 		d = append(d, `"is_service":true`)
+	case s.svcShape == 1:
+		d = append(d, `"is_service":false`)
+	case s.svcShape == 2:
+		d = append(d, `"is_service":null`)
 	}
-	f = append(f, `"vkuth_data":{`+strings.Join(d, ",")+`}`)
+	switch s.dataShape {
+	case 0:
+		f = append(f, `"vkuth_data":{`+strings.Join(d, ",")+`}`)
+	case 2:
+		f = append(f, `"vkuth_data":null`)
+	}
 	return "{" + strings.Join(f, ",") + "}"
 }
 
@@ -231,7 +271,9 @@ func (s *spec) mint(keys []keyPair) string {
 		enc = enc[:10] + "=" + enc[11:]
 	case 4:
 		other := *s.userOr("u") + "2"
-		cl = b64.EncodeToString([]byte(s.claimsJSON(&other)))
+		s2 := *s
+		s2.dataShape = 0 // the replaced claims must differ from the signed ones
+		cl = b64.EncodeToString([]byte(s2.claimsJSON(&other)))
 	case 5:
 		enc = ""
 	case 6:
@@ -471,17 +513,17 @@ func tamper(r *verifx.Rng, s *spec, now int64, keys []keyPair, which int) string
 }
 
 type metaSpec struct {
-	name           string
-	wq             int // weight * 4
-	pre            uint32
-	only           bool
-	sk             [3]bool
-	strat          string
-	num, fk, fk2   uint32
-	ts             uint32
-	raws           []string // RawKind per tag
-	desc           string
-	resolution     int
+	name         string
+	wq           int // weight * 4
+	pre          uint32
+	only         bool
+	sk           [3]bool
+	strat        string
+	num, fk, fk2 uint32
+	ts           uint32
+	raws         []string // RawKind per tag
+	desc         string
+	resolution   int
 }
 
 func (m *metaSpec) meta() format.MetricMetaValue {
@@ -786,275 +828,394 @@ func runCase(i int, r *verifx.Rng) {
 	}
 	helper := vkuth.NewJWTHelper(cfgKeys, app)
 	helper.SetNow(func() time.Time { return time.Unix(now/1000, (now%1000)*1_000_000) })
-
-	// a valid token …
-	s := &spec{alg: str(jwt.SigningMethodEdDSA.Alg()), kind: str(vkuth.KindHeaderTokenValue), kid: str(keys[0].id), otherLit: pick(r, []string{"7", "true", "null", `["EdDSA"]`, `{"a":1}`}),
-		iss: pstr(vkuth.TokenIssuer), user: pstr(pick(r, []string{"u@corp", "alice", "x", "svc-1", "имя"})),
-		exp: p64(now + int64(1+r.Intn(7200))*1000), iat: p64(now - int64(r.Intn(600))*1000), service: r.Chance(1, 6)}
-	if r.Chance(1, 3) {
-		s.nbf = p64(*s.iat)
-	}
-	if r.Chance(1, 5) { // fractional seconds still inside the window
-		*s.exp += int64(r.Intn(4)) * 250
-		*s.iat += int64(r.Intn(4)) * 250
-	}
-	s.bits = genBits(r, app)
-	// … changed in 0, 1 or 2 aspects
-	nt := r.Pick(30, 60, 10)
-	used := map[int]bool{}
-	for len(s.aspects) < nt {
-		w := r.Intn(len(tamperKinds))
-		if used[w] {
-			continue
-		}
-		used[w] = true
-		if a := tamper(r, s, now, keys, w); a != "none" {
-			s.aspects = append(s.aspects, a)
-		} else {
-			break
-		}
-	}
-	token := s.mint(keys)
-	empty := r.Chance(1, 60)
-	if empty {
-		token = ""
-		s.aspects = append(s.aspects, "empty")
-	}
-	sigOk := sigOkFor(token, cfgKeys)
-
 	h.Op("cfg %s %s %s %d %d", xs(app), xl(cfgIDs), xl(prot), b2i(local), b2i(insecure))
-	switch {
-	case empty:
-		h.Op("tok %d empty", now)
-	case s.malformed != 0:
-		h.Op("tok %d malformed", now)
-	default:
-		iss, user := "", ""
-		if s.iss != nil {
-			iss = *s.iss
-		}
-		if s.user != nil {
-			user = *s.user
-		}
-		h.Op("tok %d t %s %s %s %s %s %s %s %s %s %d %s", now, s.alg.tok(), s.kind.tok(), s.kid.tok(), xl(sigOk), xs(iss), xs(user),
-			optMs(s.exp), optMs(s.iat), optMs(s.nbf), b2i(s.service), xl(s.bits))
-	}
-	o := parse(helper, token, prot, local, insecure)
-	for _, a := range s.aspects {
-		h.Stat("tamper."+a, 1)
-	}
-	h.Stat(fmt.Sprintf("aspects.%d", len(s.aspects)), 1)
-	switch {
-	case o.panicked:
-		h.Obs("panic")
-		h.Stat("out.panic", 1)
-	case o.err != nil:
-		h.Obs("err %d", o.mask)
-		h.Stat(fmt.Sprintf("out.err.%d", o.mask), 1)
-	default:
-		sn := o.ai.Snapshot()
-		h.Obs("ok %s", snapTok(&sn))
-		h.Stat("out.ok", 1)
-	}
-	if len(s.aspects) == 1 {
-		h.NonTrivial("one-aspect")
-	}
-	if o.ai == nil {
-		return
-	}
-	sn := o.ai.Snapshot()
 
-	// ---- direct oracle, acceptance (the property's "accepted only if …"); not applicable to local/insecure mode
-	if !local && !insecure {
-		const w = 5000 // the property's tolerance in ms — deliberately NOT vkuth.JWTTimeWindow
-		bad := func(sig, what string) { h.Viol("accept-"+sig, "token accepted although %s; token=%s now=%d", what, token, now) }
-		kidCfg := s.kid.k == 2 && cfgKeys[s.kid.s] != nil
-		switch {
-		case empty || s.malformed != 0:
-			bad("malformed", "it is empty or malformed")
-		case s.alg != str("EdDSA"):
-			bad("alg", "its alg is not EdDSA")
-		case s.kind != str("token"):
-			bad("kind", "its kind header is not \"token\"")
-		case !kidCfg:
-			bad("kid", "its kid names no configured key")
-		case !contains(sigOk, s.kid.s):
-			bad("sig", "its signature does not verify under the key its kid names")
-		case s.iss == nil || *s.iss != "vkuth":
-			bad("iss", "its issuer is not vkuth")
-		case s.user == nil || *s.user == "":
-			bad("user", "it names no user")
-		case s.exp == nil:
-			bad("noexp", "it has no expiry")
-		case now >= *s.exp+w:
-			bad("expired", "it expired more than 5 s ago")
-		// iat/nbf are NumericDates: golang-jwt keeps whole seconds (jwt.TimePrecision), so they are compared floored
-		case s.iat != nil && *s.iat/1000*1000 > now+w:
-			bad("future-iat", "it was issued more than 5 s in the future")
-		case s.nbf != nil && *s.nbf/1000*1000 > now+w:
-			bad("premature", "its not-before is more than 5 s in the future")
-		}
-		// only bits prefixed with the application name are granted
-		pfx := app + ":"
-		if sn.Admin && !contains(s.bits, pfx+"admin") {
-			h.Viol("grant-admin", "admin granted without bit %q; bits=%q", pfx+"admin", s.bits)
-		}
-		if sn.Developer && !contains(s.bits, pfx+"developer") {
-			h.Viol("grant-developer", "developer granted without bit; bits=%q", s.bits)
-		}
-		if sn.ViewDefault && !contains(s.bits, pfx+"view_default") {
-			h.Viol("grant-view-default", "view_default granted without bit; bits=%q", s.bits)
-		}
-		if sn.EditDefault && !contains(s.bits, pfx+"edit_default") {
-			h.Viol("grant-edit-default", "edit_default granted without bit; bits=%q", s.bits)
-		}
-		// metamorphic: removing every bit that lacks the application prefix changes nothing
-		var own []string
-		for _, b := range s.bits {
-			if strings.HasPrefix(b, pfx) {
-				own = append(own, b)
-			}
-		}
-		if len(own) != len(s.bits) {
-			h.Stat("oracle.foreign-bits", 1)
-			s2 := *s
-			s2.bits = own
-			o2 := parse(helper, s2.mint(keys), prot, local, insecure)
-			if o2.ai == nil {
-				h.Viol("foreign-bit-accept", "token without its foreign bits is rejected: %v", o2.err)
-			} else if sn2 := o2.ai.Snapshot(); snapTok(&sn2) != snapTok(&sn) {
-				h.Viol("foreign-bit-grant", "bits without the %q prefix changed the grants: %s vs %s; bits=%q", pfx, snapTok(&sn), snapTok(&sn2), s.bits)
-			}
-		}
-		if len(own) == 0 && (sn.Admin || sn.Developer || sn.ViewDefault || sn.EditDefault || len(sn.ViewPrefix)+len(sn.EditPrefix)+len(sn.ViewMetric)+len(sn.EditMetric) > 0) {
-			h.Viol("grant-from-nothing", "no bit carries the application prefix but something is granted: %s", snapTok(&sn))
-		}
+	// A neutral token: valid, explicit empty bit array, its own user. Parsed (unobserved) at the start of every case so
+	// that whatever process-wide state token parsing may keep is the same whether or not earlier cases ran (-only replays),
+	// and used as the "other history" of the grant-depends-on-previous-token oracle.
+	neutral := func(at int64) string {
+		ns := &spec{alg: str(jwt.SigningMethodEdDSA.Alg()), kind: str(vkuth.KindHeaderTokenValue), kid: str(keys[0].id), otherLit: "7",
+			iss: pstr(vkuth.TokenIssuer), user: pstr("neutral"), exp: p64(at + 3600_000), iat: p64(at), svcShape: 1}
+		return ns.mint(keys)
 	}
+	parse(helper, neutral(now), prot, false, false)
 
-	// ---- policy: names biased towards what the bits mention
-	names := append([]string(nil), namePool...)
-	names = append(names, remoteNames...)
-	for _, m := range append(append([]string(nil), sn.ViewMetric...), sn.EditMetric...) {
-		names = append(names, m, m)
-	}
-	for _, p := range append(append([]string(nil), sn.ViewPrefix...), sn.EditPrefix...) {
-		names = append(names, p+"x", p+"bar", p)
-	}
-	interesting := false
-	for n := 3 + r.Intn(3); n > 0; n-- {
-		name := names[r.Intn(len(names))]
-		h.Op("view %s", xs(name))
-		got := o.ai.ViewName(name)
-		if got2 := o.ai.View(format.MetricMetaValue{Name: name}); got2 != got {
-			h.Viol("view-inconsistent", "CanViewMetric and CanViewMetricName differ on %q", name)
+	// A case is a SEQUENCE of 1-5 tokens parsed by the same JWTHelper in this one process. The model is a function of
+	// (configuration, clock, token) alone, so any influence of an earlier token on a later one is a disagreement.
+	nTok := 1 + r.Pick(25, 35, 20, 12, 8)
+	h.Stat(fmt.Sprintf("seq.len.%d", nTok), 1)
+	var prevBits []string // bits carried by the claims of the previous token of the sequence (accepted or not)
+	var deferred []func() // metamorphic re-parses, run after the sequence so that they cannot disturb it
+	oneAspect, interesting, bitlessAfterBits := false, false, false
+	for j := 0; j < nTok; j++ {
+		if j > 0 {
+			now += int64(r.Intn(4)) * 1000
 		}
-		h.Obs("view %d", b2i(got))
-		h.Stat(fmt.Sprintf("view.%d", b2i(got)), 1)
-		if got {
-			if !sn.Admin && isRemote(name) {
-				h.Viol("view-remote-config", "non-admin may view remote-config metric %q; %s", name, snapTok(&sn))
-			}
-			if !local && !insecure && !bitRight(s.bits, app, "view", name, prot) {
-				h.Viol("view-without-bit", "%q viewable but the token has no matching view bit; bits=%q prot=%q", name, s.bits, prot)
-			}
-			if !viewRight(&sn, name) {
-				h.Viol("view-without-right", "%q viewable without a metric, prefix, namespace or default right; %s prot=%q", name, snapTok(&sn), sn.Protected)
-			}
-		}
-	}
-	for n := 1 + r.Intn(2); n > 0; n-- {
-		a, b := names[r.Intn(len(names))], names[r.Intn(len(names))]
-		create := r.Bool()
-		h.Op("chg %d %s %s", b2i(create), xs(a), xs(b))
-		got := o.ai.Change(create, format.MetricMetaValue{Name: a}, format.MetricMetaValue{Name: b})
-		h.Obs("chg %d", b2i(got))
-		if got && !sn.Admin && (isRemote(a) || isRemote(b) || !editRight(&sn, a) || !editRight(&sn, b)) {
-			h.Viol("change-without-right", "non-admin may change %q -> %q; %s prot=%q", a, b, snapTok(&sn), sn.Protected)
-		}
-		if got && !local && !insecure && !contains(s.bits, app+":admin") && (!bitRight(s.bits, app, "edit", a, prot) || !bitRight(s.bits, app, "edit", b, prot)) {
-			h.Viol("change-without-bit", "%q -> %q may be changed but the token has no admin bit and no matching edit bits for both; bits=%q prot=%q", a, b, s.bits, prot)
-		}
-	}
-	// names for edits: prefer names the token can edit so that the field checks are reached
-	var editable []string
-	for _, nm := range names {
-		if editRight(&sn, nm) && !isRemote(nm) {
-			editable = append(editable, nm)
-		}
-	}
-	for n := 3 + r.Intn(4); n > 0; n-- {
-		pool := names
-		if len(editable) > 0 && r.Chance(4, 5) {
-			pool = editable
-		}
-		old := genMeta(r, pool)
-		nw := old
-		nmut := r.Pick(2, 6, 2)
-		if r.Chance(1, 10) {
-			nw = genMeta(r, pool)
-		}
-		for k := 0; k < nmut; k++ {
-			h.Stat("mut."+mutate(r, &nw, pool), 1)
-		}
-		create := r.Chance(1, 4)
-		if create {
-			old = nw
-		}
-		h.Op("edit %d %s %s", b2i(create), old.tok(), nw.tok())
-		om, nm := old.meta(), nw.meta()
-		var cls string
+		last := j == nTok-1
+		prev := prevBits
 		func() {
-			defer func() {
-				if rec := recover(); rec != nil {
-					cls = "panic"
+			// a valid token …
+			s := &spec{alg: str(jwt.SigningMethodEdDSA.Alg()), kind: str(vkuth.KindHeaderTokenValue), kid: str(keys[0].id), otherLit: pick(r, []string{"7", "true", "null", `["EdDSA"]`, `{"a":1}`}),
+				iss: pstr(vkuth.TokenIssuer), user: pstr(pick(r, []string{"u@corp", "alice", "x", "svc-1", "имя"})),
+				exp: p64(now + int64(1+r.Intn(7200))*1000), iat: p64(now - int64(r.Intn(600))*1000), service: r.Chance(1, 6)}
+			if r.Chance(1, 3) {
+				s.nbf = p64(*s.iat)
+			}
+			if r.Chance(1, 5) { // fractional seconds still inside the window
+				*s.exp += int64(r.Intn(4)) * 250
+				*s.iat += int64(r.Intn(4)) * 250
+			}
+			s.nullAbsent = r.Chance(1, 4)
+			s.svcShape = r.Intn(3)
+			// bit sets: the first token of a sequence is usually privileged; later ones often carry no bits key / null / [] /
+			// a subset of the previous token's bits / the previous bits under another application's prefix
+			ownPriv := []string{"admin", "developer", "edit_default", "view_default", "edit_prefix.", "view_prefix.foo_", "edit_namespace.ns", "edit_metric.abc"}
+			mode := r.Pick(50, 5, 3, 4, 0, 0)
+			if j == 0 && nTok > 1 {
+				mode = r.Pick(30, 3, 2, 2, 0, 0, 63)
+			} else if j > 0 {
+				mode = r.Pick(30, 28, 9, 9, 14, 10)
+			}
+			switch mode {
+			case 0:
+				s.bits = genBits(r, app)
+			case 1:
+				s.bitsShape = 1
+			case 2:
+				s.bitsShape = 2
+			case 3: // explicit []
+			case 4: // fewer bits than the previous token
+				for _, b := range prev {
+					if r.Bool() {
+						s.bits = append(s.bits, b)
+					}
 				}
-			}()
-			cls = editClass(o.ai.Edit(create, om, nm))
+			case 5: // the previous token's bits under another application's prefix
+				for _, b := range prev {
+					if rest, ok := strings.CutPrefix(b, app+":"); ok {
+						s.bits = append(s.bits, "other:"+rest)
+					}
+				}
+			case 6: // privileged
+				s.bits = genBits(r, app)
+				for n := 1 + r.Intn(3); n > 0; n-- {
+					s.bits = append(s.bits, app+":"+pick(r, ownPriv))
+				}
+			}
+			if r.Chance(1, 25) {
+				s.dataShape = 1 + r.Intn(2)
+				s.user, s.bits, s.service, s.bitsShape = nil, nil, false, 1
+			}
+			h.Stat(fmt.Sprintf("bits.mode.%d", mode), 1)
+			h.Stat(fmt.Sprintf("shape.bits.%d", s.bitsShape), 1)
+			h.Stat(fmt.Sprintf("shape.data.%d", s.dataShape), 1)
+			// … changed in 0, 1 or 2 aspects
+			nt := r.Pick(30, 60, 10)
+			used := map[int]bool{}
+			for len(s.aspects) < nt {
+				w := r.Intn(len(tamperKinds))
+				if used[w] {
+					continue
+				}
+				used[w] = true
+				if a := tamper(r, s, now, keys, w); a != "none" {
+					s.aspects = append(s.aspects, a)
+				} else {
+					break
+				}
+			}
+			token := s.mint(keys)
+			empty := r.Chance(1, 60)
+			if empty {
+				token = ""
+				s.aspects = append(s.aspects, "empty")
+			}
+			sigOk := sigOkFor(token, cfgKeys)
+			if s.malformed == 0 && !empty {
+				prevBits = s.bits
+			}
+			hadOwn := false
+			for _, b := range prev {
+				if strings.HasPrefix(b, app+":") {
+					hadOwn = true
+				}
+			}
+			tokNow := now
+
+			switch {
+			case empty:
+				h.Op("tok %d empty", now)
+			case s.malformed != 0:
+				h.Op("tok %d malformed", now)
+			default:
+				iss, user := "", ""
+				if s.iss != nil {
+					iss = *s.iss
+				}
+				if s.user != nil {
+					user = *s.user
+				}
+				h.Op("tok %d t %s %s %s %s %s %s %s %s %s %d %s", now, s.alg.tok(), s.kind.tok(), s.kid.tok(), xl(sigOk), xs(iss), xs(user),
+					optMs(s.exp), optMs(s.iat), optMs(s.nbf), b2i(s.service), xl(s.bits))
+			}
+			o := parse(helper, token, prot, local, insecure)
+			for _, a := range s.aspects {
+				h.Stat("tamper."+a, 1)
+			}
+			h.Stat(fmt.Sprintf("aspects.%d", len(s.aspects)), 1)
+			switch {
+			case o.panicked:
+				h.Obs("panic")
+				h.Stat("out.panic", 1)
+			case o.err != nil:
+				h.Obs("err %d", o.mask)
+				h.Stat(fmt.Sprintf("out.err.%d", o.mask), 1)
+			default:
+				sn := o.ai.Snapshot()
+				h.Obs("ok %s", snapTok(&sn))
+				h.Stat("out.ok", 1)
+			}
+			if len(s.aspects) == 1 {
+				oneAspect = true
+			}
+			if o.ai == nil {
+				return
+			}
+			sn := o.ai.Snapshot()
+			if j > 0 && hadOwn && s.bitsShape != 0 && !local && !insecure {
+				bitlessAfterBits = true
+				h.Stat("seq.bitless-after-bits", 1)
+			}
+			// metamorphic, after the sequence: the grants of a token must not depend on which tokens were parsed before it.
+			// Same token, fresh JWTHelper, other history (the neutral token instead of this case's earlier tokens).
+			if !local && !insecure {
+				inSeq := snapTok(&sn)
+				deferred = append(deferred, func() {
+					h.Stat("oracle.history", 1)
+					hf := vkuth.NewJWTHelper(cfgKeys, app)
+					hf.SetNow(func() time.Time { return time.Unix(tokNow/1000, (tokNow%1000)*1_000_000) })
+					parse(hf, neutral(tokNow), prot, false, false)
+					o2 := parse(hf, token, prot, false, false)
+					if o2.ai == nil {
+						h.Viol("accept-depends-on-previous-token", "token %d of the sequence was accepted, but is rejected after a neutral token on a fresh helper (%v); token=%s", j, o2.err, token)
+					} else if sn2 := o2.ai.Snapshot(); snapTok(&sn2) != inSeq {
+						h.Viol("grant-depends-on-previous-token", "token %d of the sequence got [%s] but gets [%s] when parsed after a neutral token on a fresh helper; claims=%s previous token's bits=%q", j, inSeq, snapTok(&sn2), s.claimsJSON(s.user), prev)
+					}
+				})
+			}
+
+			// ---- direct oracle, acceptance (the property's "accepted only if …"); not applicable to local/insecure mode
+			if !local && !insecure {
+				const w = 5000 // the property's tolerance in ms — deliberately NOT vkuth.JWTTimeWindow
+				bad := func(sig, what string) {
+					h.Viol("accept-"+sig, "token accepted although %s; token=%s now=%d", what, token, now)
+				}
+				kidCfg := s.kid.k == 2 && cfgKeys[s.kid.s] != nil
+				switch {
+				case empty || s.malformed != 0:
+					bad("malformed", "it is empty or malformed")
+				case s.alg != str("EdDSA"):
+					bad("alg", "its alg is not EdDSA")
+				case s.kind != str("token"):
+					bad("kind", "its kind header is not \"token\"")
+				case !kidCfg:
+					bad("kid", "its kid names no configured key")
+				case !contains(sigOk, s.kid.s):
+					bad("sig", "its signature does not verify under the key its kid names")
+				case s.iss == nil || *s.iss != "vkuth":
+					bad("iss", "its issuer is not vkuth")
+				case s.user == nil || *s.user == "":
+					bad("user", "it names no user")
+				case s.exp == nil:
+					bad("noexp", "it has no expiry")
+				case now >= *s.exp+w:
+					bad("expired", "it expired more than 5 s ago")
+				// iat/nbf are NumericDates: golang-jwt keeps whole seconds (jwt.TimePrecision), so they are compared floored
+				case s.iat != nil && *s.iat/1000*1000 > now+w:
+					bad("future-iat", "it was issued more than 5 s in the future")
+				case s.nbf != nil && *s.nbf/1000*1000 > now+w:
+					bad("premature", "its not-before is more than 5 s in the future")
+				}
+				// only bits prefixed with the application name are granted
+				pfx := app + ":"
+				if sn.Admin && !contains(s.bits, pfx+"admin") {
+					h.Viol("grant-admin", "admin granted without bit %q; bits=%q", pfx+"admin", s.bits)
+				}
+				if sn.Developer && !contains(s.bits, pfx+"developer") {
+					h.Viol("grant-developer", "developer granted without bit; bits=%q", s.bits)
+				}
+				if sn.ViewDefault && !contains(s.bits, pfx+"view_default") {
+					h.Viol("grant-view-default", "view_default granted without bit; bits=%q", s.bits)
+				}
+				if sn.EditDefault && !contains(s.bits, pfx+"edit_default") {
+					h.Viol("grant-edit-default", "edit_default granted without bit; bits=%q", s.bits)
+				}
+				// metamorphic: removing every bit that lacks the application prefix changes nothing
+				var own []string
+				for _, b := range s.bits {
+					if strings.HasPrefix(b, pfx) {
+						own = append(own, b)
+					}
+				}
+				if len(own) != len(s.bits) {
+					h.Stat("oracle.foreign-bits", 1)
+					s2 := *s
+					s2.bits = own
+					tok2, inSeq := s2.mint(keys), snapTok(&sn)
+					deferred = append(deferred, func() {
+						hf := vkuth.NewJWTHelper(cfgKeys, app)
+						hf.SetNow(func() time.Time { return time.Unix(tokNow/1000, (tokNow%1000)*1_000_000) })
+						o2 := parse(hf, tok2, prot, false, false)
+						if o2.ai == nil {
+							h.Viol("foreign-bit-accept", "token without its foreign bits is rejected: %v", o2.err)
+						} else if sn2 := o2.ai.Snapshot(); snapTok(&sn2) != inSeq {
+							h.Viol("foreign-bit-grant", "bits without the %q prefix changed the grants: %s vs %s; bits=%q", pfx, inSeq, snapTok(&sn2), s.bits)
+						}
+					})
+				}
+				if len(own) == 0 && (sn.Admin || sn.Developer || sn.ViewDefault || sn.EditDefault || len(sn.ViewPrefix)+len(sn.EditPrefix)+len(sn.ViewMetric)+len(sn.EditMetric) > 0) {
+					h.Viol("grant-from-nothing", "no bit carries the application prefix but something is granted: %s", snapTok(&sn))
+				}
+			}
+
+			// ---- policy: names biased towards what the bits mention
+			names := append([]string(nil), namePool...)
+			names = append(names, remoteNames...)
+			for _, m := range append(append([]string(nil), sn.ViewMetric...), sn.EditMetric...) {
+				names = append(names, m, m)
+			}
+			for _, p := range append(append([]string(nil), sn.ViewPrefix...), sn.EditPrefix...) {
+				names = append(names, p+"x", p+"bar", p)
+			}
+			nView, nChg, nEdit := 3+r.Intn(3), 1+r.Intn(2), 3+r.Intn(4)
+			if !last {
+				nView, nChg, nEdit = 1+r.Intn(2), r.Intn(2), 1+r.Intn(2)
+			}
+			for n := nView; n > 0; n-- {
+				name := names[r.Intn(len(names))]
+				h.Op("view %s", xs(name))
+				got := o.ai.ViewName(name)
+				if got2 := o.ai.View(format.MetricMetaValue{Name: name}); got2 != got {
+					h.Viol("view-inconsistent", "CanViewMetric and CanViewMetricName differ on %q", name)
+				}
+				h.Obs("view %d", b2i(got))
+				h.Stat(fmt.Sprintf("view.%d", b2i(got)), 1)
+				if got {
+					if !sn.Admin && isRemote(name) {
+						h.Viol("view-remote-config", "non-admin may view remote-config metric %q; %s", name, snapTok(&sn))
+					}
+					if !local && !insecure && !bitRight(s.bits, app, "view", name, prot) {
+						h.Viol("view-without-bit", "%q viewable but the token has no matching view bit; bits=%q prot=%q", name, s.bits, prot)
+					}
+					if !viewRight(&sn, name) {
+						h.Viol("view-without-right", "%q viewable without a metric, prefix, namespace or default right; %s prot=%q", name, snapTok(&sn), sn.Protected)
+					}
+				}
+			}
+			for n := nChg; n > 0; n-- {
+				a, b := names[r.Intn(len(names))], names[r.Intn(len(names))]
+				create := r.Bool()
+				h.Op("chg %d %s %s", b2i(create), xs(a), xs(b))
+				got := o.ai.Change(create, format.MetricMetaValue{Name: a}, format.MetricMetaValue{Name: b})
+				h.Obs("chg %d", b2i(got))
+				if got && !sn.Admin && (isRemote(a) || isRemote(b) || !editRight(&sn, a) || !editRight(&sn, b)) {
+					h.Viol("change-without-right", "non-admin may change %q -> %q; %s prot=%q", a, b, snapTok(&sn), sn.Protected)
+				}
+				if got && !local && !insecure && !contains(s.bits, app+":admin") && (!bitRight(s.bits, app, "edit", a, prot) || !bitRight(s.bits, app, "edit", b, prot)) {
+					h.Viol("change-without-bit", "%q -> %q may be changed but the token has no admin bit and no matching edit bits for both; bits=%q prot=%q", a, b, s.bits, prot)
+				}
+			}
+			// names for edits: prefer names the token can edit so that the field checks are reached
+			var editable []string
+			for _, nm := range names {
+				if editRight(&sn, nm) && !isRemote(nm) {
+					editable = append(editable, nm)
+				}
+			}
+			for n := nEdit; n > 0; n-- {
+				pool := names
+				if len(editable) > 0 && r.Chance(4, 5) {
+					pool = editable
+				}
+				old := genMeta(r, pool)
+				nw := old
+				nmut := r.Pick(2, 6, 2)
+				if r.Chance(1, 10) {
+					nw = genMeta(r, pool)
+				}
+				for k := 0; k < nmut; k++ {
+					h.Stat("mut."+mutate(r, &nw, pool), 1)
+				}
+				create := r.Chance(1, 4)
+				if create {
+					old = nw
+				}
+				h.Op("edit %d %s %s", b2i(create), old.tok(), nw.tok())
+				om, nm := old.meta(), nw.meta()
+				var cls string
+				func() {
+					defer func() {
+						if rec := recover(); rec != nil {
+							cls = "panic"
+						}
+					}()
+					cls = editClass(o.ai.Edit(create, om, nm))
+				}()
+				h.Obs("edit %s", cls)
+				h.Stat("edit."+cls, 1)
+				if cls != "forbidden" && !sn.Admin {
+					interesting = true
+				}
+				if cls == "ok" && !local && !insecure && !contains(s.bits, app+":admin") &&
+					(!bitRight(s.bits, app, "edit", old.name, prot) || !bitRight(s.bits, app, "edit", nw.name, prot)) {
+					h.Viol("edit-without-bit", "edit %q -> %q accepted but the token has no admin bit and no matching edit bits for both; bits=%q prot=%q", old.name, nw.name, s.bits, prot)
+				}
+				if cls == "ok" && !sn.Admin {
+					v := func(sig, what string) {
+						h.Viol("edit-"+sig, "non-admin edit accepted although %s; old=[%s] new=[%s] %s prot=%q", what, old.tok(), nw.tok(), snapTok(&sn), sn.Protected)
+					}
+					if isRemote(old.name) || isRemote(nw.name) {
+						v("remote-config", "a remote-config metric is involved")
+					}
+					if !editRight(&sn, old.name) {
+						v("no-right-old", "there is no edit right on the old name")
+					}
+					if !editRight(&sn, nw.name) {
+						v("no-right-new", "there is no edit right on the new name")
+					}
+					if old.wq != nw.wq && !(old.wq == 0 && nw.wq == 4) {
+						v("weight", "weight changes")
+					}
+					if old.pre != nw.pre || old.only != nw.only {
+						v("presort", "presort changes")
+					}
+					if old.strat != nw.strat || old.num != nw.num || old.fk != nw.fk || old.fk2 != nw.fk2 || old.ts != nw.ts {
+						v("sharding", "sharding changes")
+					}
+					if old.sk != nw.sk {
+						v("skips", "host / sum-square skips change")
+					}
+					for t := 0; t < len(old.raws) || t < len(nw.raws); t++ {
+						or, nr := t < len(old.raws) && old.raws[t] != "", t < len(nw.raws) && nw.raws[t] != ""
+						if or != nr {
+							v("raw", fmt.Sprintf("raw-ness of tag %d changes", t))
+						}
+					}
+				}
+			}
 		}()
-		h.Obs("edit %s", cls)
-		h.Stat("edit."+cls, 1)
-		if cls != "forbidden" && !sn.Admin {
-			interesting = true
-		}
-		if cls == "ok" && !local && !insecure && !contains(s.bits, app+":admin") &&
-			(!bitRight(s.bits, app, "edit", old.name, prot) || !bitRight(s.bits, app, "edit", nw.name, prot)) {
-			h.Viol("edit-without-bit", "edit %q -> %q accepted but the token has no admin bit and no matching edit bits for both; bits=%q prot=%q", old.name, nw.name, s.bits, prot)
-		}
-		if cls == "ok" && !sn.Admin {
-			v := func(sig, what string) {
-				h.Viol("edit-"+sig, "non-admin edit accepted although %s; old=[%s] new=[%s] %s prot=%q", what, old.tok(), nw.tok(), snapTok(&sn), sn.Protected)
-			}
-			if isRemote(old.name) || isRemote(nw.name) {
-				v("remote-config", "a remote-config metric is involved")
-			}
-			if !editRight(&sn, old.name) {
-				v("no-right-old", "there is no edit right on the old name")
-			}
-			if !editRight(&sn, nw.name) {
-				v("no-right-new", "there is no edit right on the new name")
-			}
-			if old.wq != nw.wq && !(old.wq == 0 && nw.wq == 4) {
-				v("weight", "weight changes")
-			}
-			if old.pre != nw.pre || old.only != nw.only {
-				v("presort", "presort changes")
-			}
-			if old.strat != nw.strat || old.num != nw.num || old.fk != nw.fk || old.fk2 != nw.fk2 || old.ts != nw.ts {
-				v("sharding", "sharding changes")
-			}
-			if old.sk != nw.sk {
-				v("skips", "host / sum-square skips change")
-			}
-			for t := 0; t < len(old.raws) || t < len(nw.raws); t++ {
-				or, nr := t < len(old.raws) && old.raws[t] != "", t < len(nw.raws) && nw.raws[t] != ""
-				if or != nr {
-					v("raw", fmt.Sprintf("raw-ness of tag %d changes", t))
-				}
-			}
-		}
+	}
+	for _, f := range deferred {
+		f()
+	}
+	if oneAspect {
+		h.NonTrivial("one-aspect")
 	}
 	if interesting {
 		h.NonTrivial("field-checks")
+	}
+	if bitlessAfterBits {
+		h.NonTrivial("bitless-after-bits")
 	}
 }
 
